@@ -73,12 +73,14 @@ def build(rng, op, sizes, den):
         return flat_op(G.grid_opinion(rng, nx, den))
     if op == "disc":
         return flat_sx(G.grid_simplex(rng, nx, den)) + [rng.below(65) / 64.0, rng.below(65) / 64.0]
+    # vacuous / dogmatic operands are frequent here: the forwarding impls are most likely to differ on them
+    kind = lambda: rng.choice([None, None, None, "part", "vac", "vac", "dog"])
     if op.startswith("fuse:"):
-        return flat_op(G.grid_opinion(rng, nx, den)) + flat_op(G.grid_opinion(rng, nx, den))
+        return flat_op(G.grid_opinion(rng, nx, den, kind())) + flat_op(G.grid_opinion(rng, nx, den, kind()))
     if op.startswith("fuse_s:"):
-        return flat_op(G.grid_opinion(rng, nx, den)) + flat_sx(G.grid_simplex(rng, nx, den))
+        return flat_op(G.grid_opinion(rng, nx, den, kind())) + flat_sx(G.grid_simplex(rng, nx, den, kind()))
     if op.startswith("fuse_ss:"):
-        return flat_sx(G.grid_simplex(rng, nx, den)) + flat_sx(G.grid_simplex(rng, nx, den))
+        return flat_sx(G.grid_simplex(rng, nx, den, kind())) + flat_sx(G.grid_simplex(rng, nx, den, kind()))
     if op.startswith("fold:"):
         return sum((flat_op(G.grid_opinion(rng, nx, den)) for _ in range(3)), [])
     if op == "mbr":
@@ -104,7 +106,7 @@ def build(rng, op, sizes, den):
 
 def gen(rng, tier):
     out = []
-    reps = 2 if tier == "quick" else 60
+    reps = 4 if tier == "quick" else 60
     plan = []
     for n in (2, 3, 4):
         plan += [(op, {"X": n}) for op in ["proj", "umax", "maxu", "disc"] + ["fuse:%d" % k for k in range(4)] +
@@ -126,6 +128,21 @@ def gen(rng, tier):
                     mop = "discchain" if hop == "disc" else hop
                     out.append(Case(hop, ty, fam, st, dims, nums, mop=mop, mdims=mdims if mdims else dims,
                                     tag=op.split(":")[0], meta={"g": gid, "lop": op}))
+                if op.startswith("fuse_s:"):
+                    # the same fusion written with an opinion that carries (points to) the left operand's base rate
+                    nx = sizes["X"]
+                    k = int(op[7:])
+                    nums2 = nums + nums[nx + 1:2 * nx + 1]
+                    out.append(Case("fuse", ty, rng.choice(FAM4), "ref", [nx, k, 1], nums2, tag="fuse_s",
+                                    meta={"g": gid, "lop": op}))
+                if op.startswith("fuse_ss:") and not op.endswith(":1"):
+                    # simplex x simplex = the belief part of opinion fusion (any base rate)
+                    nx = sizes["X"]
+                    k = int(op[8:])
+                    a = G.grid_dist(rng, nx, 8, True)
+                    nums2 = nums[:nx + 1] + a + nums[nx + 1:] + a
+                    out.append(Case("fuse", ty, rng.choice(FAM4), "own", [nx, k, 0], nums2, tag="fuse_ss",
+                                    meta={"g": gid, "lop": op, "belief_part": nx + 1}))
     return out
 
 
@@ -169,6 +186,9 @@ def cross(cases, impl, model):
             lim = 4 * num.FEPS[ty] * float(scale(cases[ii[0]], None))
             for i in ii[1:]:
                 r = impl[i][1]
+                bp = cases[i].meta.get("belief_part")
+                if bp:
+                    r = r[:bp]
                 if len(r) != len(base) or any(abs(p - q) > lim for p, q in zip(r, base)):
                     out.append((i, "%s (%s, %s) and (%s, %s) disagree beyond a few ulps: %r vs %r" % (
                         cases[i].meta["lop"], cases[ii[0]].fam, cases[ii[0]].style, cases[i].fam, cases[i].style, base, r)))
